@@ -178,6 +178,12 @@ def _as_surface(rng, tier, sym=None, ny=None, **kw):
                                  radius_cp=None, fem_origin=float(rng.uniform(0.25, 0.5)), **kw)
     s.pop("radius_cp")
     s["E"] = 70e9; s["G"] = 30e9
+    # options the pinned tests never combine with an aerostructural model
+    st = str(rng.choice(["wetted", "projected"]))
+    if "S_ref_type" not in kw:
+        s["S_ref_type"] = st
+    if "k_lam" not in kw:
+        s["k_lam"] = float(rng.choice([0.05, 0.0, 0.5, 1.0], p=[0.4, 0.3, 0.2, 0.1]))
     return s
 
 
@@ -198,19 +204,31 @@ def c02_aerostruct(rng, tier):
     flow = _as_flow(rng)
     ofs = ["AS_point_0." + o for o in _AS_OF if o != "total_perf.wing_structural_mass"] + ["wing.structural_mass"]
     wrt = ["alpha", "Mach_number", "v", "rho", "load_factor", "wing.thickness_cp", "wing.twist_cp"]
-    lin = str(rng.choice(["direct", "lbgs", "krylov"]))
-    res = {}
+    from . import oracles as _o
+    lin = ["lbgs", "krylov", "direct"][_o.CURRENT_K % 3]       # every solver is exercised in both modes in every run
+    rng.choice(["direct", "lbgs", "krylov"])                    # (keeps the random stream of earlier versions)
+    import openmdao.api as om
+    res = {}; nonconv = {}
     for mode in ("fwd", "rev"):
         p = pipelines.build_aerostruct([s], [flow], linear=lin, mode=mode)
         with quiet():
             p.run_model()
-            res[mode] = p.compute_totals(of=ofs, wrt=wrt, return_format="array")
+            try:
+                res[mode] = p.compute_totals(of=ofs, wrt=wrt, return_format="array")
+            except om.AnalysisError as ex:
+                nonconv[mode] = str(ex)[:200]
     out = []
-    case = dict(ny=s["mesh"].shape[1], symmetry=s["symmetry"], linear_solver=lin, weight_relief=relief, load_factor=flow["load_factor"])
+    case = dict(ny=s["mesh"].shape[1], symmetry=s["symmetry"], linear_solver=lin, weight_relief=relief, load_factor=flow["load_factor"],
+                k_lam=s.get("k_lam"), S_ref_type=s.get("S_ref_type"))
+    if nonconv:
+        raise Discard()      # convergence of the iterative linear solvers is runtime behaviour (hypothesis of the property)
     sc = np.maximum(np.max(np.abs(res["fwd"]), axis=0, keepdims=True), 1e-30)
     fv = np.concatenate([np.atleast_1d(p.get_val(o)).ravel() for o in ofs])
     xv = np.concatenate([np.atleast_1d(p.get_val(w)).ravel() for w in wrt])
-    ok, msg = core.close_jac(res["fwd"], res["rev"], rtol=1e-6, fvals=fv, xvals=xv, noise=1e-9)
+    # unpreconditioned GMRES reaches its residual tolerance, not the same accuracy in the solution (condition number of the
+    # coupled system): "the same values to solver tolerance"
+    tol_lin = 2e-4 if lin == "krylov" else 1e-6
+    ok, msg = core.close_jac(res["fwd"], res["rev"], rtol=tol_lin, fvals=fv, xvals=xv, noise=1e-9)
     if not ok:
         out.append(_fail("forward and reverse mode totals differ", msg, "equal", **case))
     # direct solver reference
@@ -218,7 +236,7 @@ def c02_aerostruct(rng, tier):
         p = pipelines.build_aerostruct([s], [flow], linear="direct", mode="fwd")
         with quiet():
             p.run_model(); Jd = p.compute_totals(of=ofs, wrt=wrt, return_format="array")
-        ok, msg = core.close_jac(res["fwd"], Jd, rtol=1e-6, fvals=fv, xvals=xv, noise=1e-9)
+        ok, msg = core.close_jac(res["fwd"], Jd, rtol=tol_lin, fvals=fv, xvals=xv, noise=1e-9)
         if not ok:
             out.append(_fail("totals depend on the linear solver attached to the coupled group", msg, "equal", **case))
     # finite differences of the converged analysis for a few scalar inputs
@@ -301,7 +319,9 @@ def c02_aero_struct(rng, tier):
 @oracle("C12", "coupled_fixed_point")
 def c12_fixed_point(rng, tier):
     from openaerostruct.transfer.load_transfer import LoadTransfer
-    s = _as_surface(rng, tier, struct_weight_relief=bool(rng.integers(2)))
+    from . import oracles as _o
+    rng.integers(2)
+    s = _as_surface(rng, tier, struct_weight_relief=bool(_o.CURRENT_K % 2 == 0))     # alternates between the cases of a run
     surfs = [s]
     if rng.uniform() < 0.5:
         # a second surface (tail) with its own spar location; same mesh shape as the wing half of the time
@@ -354,6 +374,16 @@ def c12_fixed_point(rng, tier):
         p2.set_val("alpha", flow["alpha"]); p2.set_val("wing.thickness_cp", s["thickness_cp"]); p2.run_model()
     if relerr(vec(p2), ref) > 1e-6:
         out.append(_fail("converged state depends on the previously analysed design point", vec(p2)[:6], ref[:6], **case))
+    # ... and one that differs in a single flight-condition input only (the structure and the meshes stay what they were)
+    for name, other in (("load_factor", flow["load_factor"] * 0.4 + 0.3), ("v", flow["v"] * 1.3), ("rho", flow["rho"] * 0.7)):
+        p3 = pipelines.build_aerostruct(surfs, [flow])
+        with quiet():
+            p3.set_val(name, other); p3.run_model()
+            p3.set_val(name, flow[name]); p3.run_model()
+        if relerr(vec(p3), ref) > 1e-6:
+            out.append(_fail("converged state depends on a previously analysed flight condition (only %s differed)" % name,
+                             vec(p3)[:6], ref[:6], changed_input=name, weight_relief=s["struct_weight_relief"], **case))
+            break
     return out
 
 
